@@ -31,8 +31,8 @@ def main() -> int:
         "functions_encoded": RUNTIME_FILES + ["lib/c/bitproto.c", "lib/go/bitproto.go"],
         "grid_cells": ncells,
         "exhaustive": not q,
-        "bounds": "F_grid = {bool, byte, uint1..64, int1..64} x stream offset 0..7 x {scalar, array element cap 3, array element cap 5 (batch path), alias, array of alias, alias of array}; each leaf between a uint{o} pad and a uint3 tail; ALL values of the leaf (subsumes the zero/all-ones/single-bit/min/max basis). quick = fixed slice (all widths at offsets 0 and 3, all offsets at widths 1,7,8,9,15-17,31-33,63,64); thorough = complete grid",
-        "outside_claim": "positions other than the six listed; enum leaves (C02); per-runtime scope is listed under coverage.parts",
+        "bounds": "F_grid = {bool, byte, uint1..64, int1..64} x stream offset 0..7 x {scalar, array element cap 3, array element cap 5 (batch path), alias, array of alias, alias of array, array of alias-of-array rows}; each leaf between a uint{o} pad and a uint3 tail; ALL values of the leaf (subsumes the zero/all-ones/single-bit/min/max basis). quick = fixed slice (all widths at offsets 0 and 3, all offsets at widths 1,7,8,9,15-17,31-33,63,64); thorough = complete grid",
+        "outside_claim": "positions other than the seven listed; enum leaves (C02); per-runtime scope is listed under coverage.parts",
         "explanation": "per cell: symbolic encode == specified bits, and encode -> decode -> encode round trip with pad and tail untouched, for all values at once",
     }
     return run_parts(PROP, "translation_validation", parts, meta, ["z3 decides QF_BV", "reference encoder states the specified layout"])
